@@ -211,6 +211,18 @@ func init() {
 		c.assumedExternal["math.Inf as a real larger than every value compared with it is NOT modelled (uninterpreted)"] = true
 		return Val{T: resT, Term: app("real_inf", ite(app(">=", c.termOf(args[0]), "0"), "1", "(- 1)"))}
 	}
+	for _, mm := range []struct{ name, op string }{{"math.Max", ">="}, {"math.Min", "<="}} {
+		mm := mm
+		externalModels[mm.name] = func(fr *Frame, callee *ssa.Function, args []Val, resT types.Type, st *State, reach string, pos token.Pos) Val {
+			c := fr.c
+			x, y := c.termOf(args[0]), c.termOf(args[1])
+			if c.floatsIEEE {
+				// NaN and signed-zero cases of math.Max / math.Min are not modelled: unconstrained result
+				return fr.havocVal(resT, "minmax")
+			}
+			return Val{T: resT, Term: ite(app(mm.op, x, y), x, y)}
+		}
+	}
 	externalModels["math.Floor"] = func(fr *Frame, callee *ssa.Function, args []Val, resT types.Type, st *State, reach string, pos token.Pos) Val {
 		c := fr.c
 		if c.floatsIEEE {
